@@ -1519,7 +1519,8 @@ def build_resolution_case(rng, ri, tier, M, P, sources):
 
 def plan(tier, seed):
     if tier == 'quick':
-        return [{'spectra': 10, 'resolution': 3} for _ in range(16)]
+        # 14 planned shards + the 2 environment-variant shards of the runner = one wave on 16 cores
+        return [{'spectra': 10, 'resolution': 3} for _ in range(14)]
     return [{'spectra': 313, 'resolution': 48} for _ in range(16)]
 
 
